@@ -28,6 +28,19 @@ pub enum Key {
     Char(char),
     F64(f64),
     UnitVariant(&'static str),
+    F32(f32),
+    CollectStr(String),
+    /// not stringifiable kinds (both serializers must refuse them)
+    BadBytes,
+    BadUnitStruct,
+    BadNewtypeVariant,
+    BadNone,
+    BadTuple,
+    BadTupleStruct,
+    BadTupleVariant,
+    BadMap,
+    BadStruct,
+    BadStructVariant,
     /// not stringifiable: a sequence as key
     BadSeq,
     /// not stringifiable: unit / none
@@ -113,6 +126,18 @@ pub fn chars_display_text(x: &str, mode: u8) -> String {
     format!("{}", CharsDisplay(x, mode))
 }
 
+impl Key {
+    /// a kind neither serializer can turn into a member name (or a non-finite float)
+    pub fn is_bad(&self) -> bool {
+        match self {
+            Key::F64(f) => !f.is_finite(),
+            Key::F32(f) => !f.is_finite(),
+            Key::BadSeq | Key::BadUnit | Key::BadBytes | Key::BadUnitStruct | Key::BadNewtypeVariant | Key::BadNone | Key::BadTuple | Key::BadTupleStruct | Key::BadTupleVariant | Key::BadMap | Key::BadStruct | Key::BadStructVariant => true,
+            _ => false,
+        }
+    }
+}
+
 impl Serialize for Key {
     fn serialize<S: Serializer>(&self, s: S) -> Result<S::Ok, S::Error> {
         match self {
@@ -132,6 +157,48 @@ impl Serialize for Key {
             Key::Char(x) => s.serialize_char(*x),
             Key::F64(x) => s.serialize_f64(*x),
             Key::UnitVariant(n) => s.serialize_unit_variant("E", 0, n),
+            Key::F32(x) => s.serialize_f32(*x),
+            Key::CollectStr(x) => s.collect_str(x),
+            Key::BadBytes => s.serialize_bytes(b"ab"),
+            Key::BadUnitStruct => s.serialize_unit_struct("U"),
+            Key::BadNewtypeVariant => s.serialize_newtype_variant("E", 0, "V", "x"),
+            Key::BadNone => s.serialize_none(),
+            Key::BadTuple => {
+                use serde::ser::SerializeTuple;
+                let mut q = s.serialize_tuple(1)?;
+                q.serialize_element(&1u8)?;
+                q.end()
+            }
+            Key::BadTupleStruct => {
+                use serde::ser::SerializeTupleStruct;
+                let mut q = s.serialize_tuple_struct("T", 1)?;
+                q.serialize_field(&1u8)?;
+                q.end()
+            }
+            Key::BadTupleVariant => {
+                use serde::ser::SerializeTupleVariant;
+                let mut q = s.serialize_tuple_variant("E", 0, "V", 1)?;
+                q.serialize_field(&1u8)?;
+                q.end()
+            }
+            Key::BadMap => {
+                use serde::ser::SerializeMap;
+                let mut q = s.serialize_map(Some(1))?;
+                q.serialize_entry("k", &1u8)?;
+                q.end()
+            }
+            Key::BadStruct => {
+                use serde::ser::SerializeStruct;
+                let mut q = s.serialize_struct("S", 1)?;
+                q.serialize_field("k", &1u8)?;
+                q.end()
+            }
+            Key::BadStructVariant => {
+                use serde::ser::SerializeStructVariant;
+                let mut q = s.serialize_struct_variant("E", 0, "V", 1)?;
+                q.serialize_field("k", &1u8)?;
+                q.end()
+            }
             Key::BadSeq => {
                 let mut q = s.serialize_seq(Some(1))?;
                 q.serialize_element(&1u8)?;
@@ -284,10 +351,23 @@ fn fix_nonfinite_f64(x: f64, allow: bool) -> f64 {
 
 pub fn gen_key(r: &mut Rng, o: &DynOpts) -> Key {
     if o.bad_keys && r.chance(1, 8) {
-        return if r.chance(1, 2) { Key::BadSeq } else { Key::BadUnit };
+        return match r.below(12) {
+            0 => Key::BadSeq,
+            1 => Key::BadUnit,
+            2 => Key::BadBytes,
+            3 => Key::BadUnitStruct,
+            4 => Key::BadNewtypeVariant,
+            5 => Key::BadNone,
+            6 => Key::BadTuple,
+            7 => Key::BadTupleStruct,
+            8 => Key::BadTupleVariant,
+            9 => Key::BadMap,
+            10 => Key::BadStruct,
+            _ => Key::BadStructVariant,
+        };
     }
     if o.float_keys && r.chance(1, 12) {
-        return Key::F64(if r.chance(1, 2) { rand_f32(r) as f64 } else { rand_f64(r) });
+        return if r.chance(1, 3) { Key::F32(rand_f32(r)) } else { Key::F64(if r.chance(1, 2) { rand_f32(r) as f64 } else { rand_f64(r) }) };
     }
     if !o.exotic_keys || r.chance(2, 3) {
         return Key::Str(if r.chance(2, 3) { r.pick(KEY_POOL).to_string() } else { rand_text(r) });
@@ -305,6 +385,7 @@ pub fn gen_key(r: &mut Rng, o: &DynOpts) -> Key {
             _ => (r.next() as i64 as i128) << r.below(64),
         }),
         14 => Key::NewtypeStr(rand_text(r)),
+        15 => Key::CollectStr(rand_text(r)),
         0 => Key::I(r.next() as i64 >> r.below(64)),
         1 => Key::U(r.next() >> r.below(64)),
         2 => Key::I8(r.next() as i8),
@@ -456,15 +537,16 @@ pub fn key_text(k: &Key) -> Option<String> {
         Key::U128(x) => x.to_string(),
         Key::Bool(x) => x.to_string(),
         Key::Char(c) => c.to_string(),
-        Key::F64(_) => return None,
+        Key::F64(_) | Key::F32(_) => return None,
+        Key::CollectStr(x) => x.clone(),
         Key::UnitVariant(n) => n.to_string(),
-        Key::BadSeq | Key::BadUnit => return None,
+        _ => return None,
     })
 }
 
 impl Dyn {
     pub fn has_bad_key(&self) -> bool {
-        self.any(&|d| matches!(d, Dyn::Map(v) if v.iter().any(|(k, _)| matches!(k, Key::BadSeq | Key::BadUnit) || matches!(k, Key::F64(f) if !f.is_finite()))))
+        self.any(&|d| matches!(d, Dyn::Map(v) if v.iter().any(|(k, _)| k.is_bad())))
     }
     pub fn any(&self, f: &dyn Fn(&Dyn) -> bool) -> bool {
         if f(self) {
